@@ -196,6 +196,51 @@ let run_codec () =
         | _ -> "?" in
       print_endline out) (read_lines ())
 
+(* ---- service mode (Model/Service.v): command calls and generator lifecycles ---- *)
+let print_eframe e =
+  Printf.printf "E %s %s %s %s %s %s %s %d\n" (xhex_of_bytes e.e_topic) (str_of_id e.e_ctx) (str_of_id e.e_hid)
+    (str_of_id e.e_fid) (str_of_ttl e.e_ttl) (str_of_optbytes e.e_content) (str_of_optbytes e.e_meta)
+    (if e.e_err then 1 else 0)
+
+let run_service () =
+  let table = ref [] in
+  List.iter (fun line ->
+      let toks = List.filter (fun s -> s <> "") (String.split_on_char ' ' (String.trim line)) in
+      match toks with
+      | "CALL" :: rest ->
+        let kv = kv_of rest in
+        let c = { c_def = id_of (getk "def" kv); c_name = bytes_of_xhex (getk "name" kv);
+                  c_suffix = bytes_of_xhex (getk "suffix" kv); c_ttl = ttl_of (getk "ttl" kv) } in
+        let call = { sf_id = id_of (getk "call" kv); sf_ctx = id_of (getk "ctx" kv); sf_topic = []; sf_hid = None } in
+        let rec apps = function
+          | "A" :: topic :: meta :: ttl :: content :: r ->
+            { oa_topic = bytes_of_xhex topic; oa_meta = opt bytes_of_xhex meta; oa_ttl = ttl_of ttl; oa_ctx = None;
+              oa_content = bytes_of_xhex content } :: apps r
+          | _ :: r -> apps r | [] -> [] in
+        let rec vals = function "V" :: v :: r -> bytes_of_xhex v :: vals r | _ :: r -> vals r | [] -> [] in
+        let res = if getk "res" kv = "ok" then CmdOk (apps rest, vals rest) else CmdErr (apps rest) in
+        print_endline "CALLFRAMES"; List.iter print_eframe (call_frames c call res)
+      | "GEN" :: rest ->
+        let kv = kv_of rest in
+        let g = { g_spawn = id_of (getk "spawn" kv); g_ctx = id_of (getk "ctx" kv); g_name = bytes_of_xhex (getk "name" kv) } in
+        let runs = List.fold_left (fun acc t ->
+            if t = "RUN" then [] :: acc
+            else if String.length t > 2 && String.sub t 0 2 = "o=" then
+              (match acc with cur :: r -> (bytes_of_xhex (String.sub t 2 (String.length t - 2)) :: cur) :: r | [] -> acc)
+            else acc) [] rest in
+        print_endline "LIFECYCLES"; List.iter print_eframe (lifecycles g (List.rev_map List.rev runs))
+      | ["EV"; "define"; id; ctx; name; valid] ->
+        let f = { sf_id = id_of id; sf_ctx = id_of ctx; sf_topic = []; sf_hid = None } in
+        let (t', a) = cserve_step !table (EDefine (f, bytes_of_xhex name, valid = "1")) in
+        table := t';
+        print_endline (match a with ADefError _ -> "ACTION deferror " ^ id | _ -> "ACTION none")
+      | ["EV"; "call"; id; ctx; name] ->
+        let f = { sf_id = id_of id; sf_ctx = id_of ctx; sf_topic = []; sf_hid = None } in
+        let (t', a) = cserve_step !table (ECall (f, bytes_of_xhex name)) in
+        table := t';
+        print_endline (match a with ARun (d, _) -> "ACTION run " ^ str_of_id d ^ " " ^ id | _ -> "ACTION none " ^ id)
+      | _ -> ()) (read_lines ())
+
 (* ---- restart mode (Model/Restart.v): which registrations / spawns / definitions come back ---- *)
 let run_restart by_ctx =
   let fs = List.filter_map (fun line ->
@@ -221,6 +266,7 @@ let () =
   | [_; "handler"] -> run_handler ()
   | [_; "codec"] -> run_codec ()
   | [_; "restart"; by_ctx] -> run_restart (by_ctx = "1")
+  | [_; "service"] -> run_service ()
   | [_; "gen-sched"; locked; seed; steps; finish] ->
     let cfg = Schedgen.parse_cfg (read_lines ()) in
     List.iter print_endline
